@@ -100,6 +100,52 @@ def match_case(case):
     return {'p': pp, 't': tp, 'scope': [], 'filter': 0, 'maps': maps, 'sub': 9, 'lt': 9, 'le': 9, 'eq': 9}
 
 
+def api_case(case):
+    """a one- or two-atom query built through the query API; the pattern handed to TLC is what was requested, not what the object stores"""
+    from chython import smiles
+    from chython.containers import QueryContainer
+    from chython.periodictable import QueryElement, AnyElement, ListElement
+    try:
+        t = smiles(case['t'])
+        t.kekule()
+    except Exception:
+        return {'skip': 1}
+
+    def build(spec):
+        kw = {k: v for k, v in spec['kw'].items()}
+        setter = spec.get('setter')
+        if setter:
+            late = {setter: kw.pop(setter)}
+        if spec['kind'] == 'elem':
+            a = QueryElement.from_atomic_number(spec['zs'][0])(**kw)
+        elif spec['kind'] == 'any':
+            a = AnyElement(**kw)
+        else:
+            from chython.periodictable import Element
+            a = ListElement([Element.from_atomic_number(z).__name__ for z in spec['zs']], **kw)
+        if setter:
+            setattr(a, setter, late[setter])
+        return a
+
+    def want(spec):
+        def lst(v):
+            return [] if v is None else (list(v) if isinstance(v, (list, tuple)) else [v])
+        kw = spec['kw']
+        return {'kind': spec['kind'], 'zs': sorted(spec['zs']), 'i': 0, 'c': kw.get('charge', 0), 'r': 0, 'nb': lst(kw.get('neighbors')), 'hyb': lst(kw.get('hybridization')),
+                'rs': [], 'hs': lst(kw.get('implicit_hydrogens')), 'het': lst(kw.get('heteroatoms')), 'masked': 0, 'st': 2}
+    q = QueryContainer('api')
+    for spec in case['atoms']:
+        q.add_atom(build(spec))
+    pp = {'atoms': [want(spec) for spec in case['atoms']], 'bonds': []}
+    if len(case['atoms']) == 2:
+        q.add_bond(1, 2, case['order'])
+        pp['bonds'] = [[1, 2, [case['order']], -1]]
+    tp, tidx = qproj.target_of(t)
+    order = list(q._atoms)
+    maps = [[tidx[mp[n]] for n in order] for mp in q.get_mapping(t, automorphism_filter=False)]
+    return {'p': pp, 't': tp, 'scope': [], 'filter': 0, 'maps': maps, 'sub': 9, 'lt': 9, 'le': 9, 'eq': 9}
+
+
 def run(ck):
     rnd = random.Random(ck.seed)
     bl = bodies(rnd, ck.quick)
@@ -139,6 +185,29 @@ def run(ck):
         ck.validate('matching', 'Trace_C07', [c for c, _ in keep], [r for _, r in keep])
         ck.count('query-target-pairs', len(keep))
         ck.count('atom-matches', sum(len(r['maps']) for _, r in keep))
+    # queries built through the API (scalars, lists, setters): the requested attributes are the specification
+    ac = []
+    apit = ['C', 'CC', 'CO', 'CC(C)(C)C', 'CC(=O)O', '[Na+].[Cl-]', 'O', 'N#N', 'FC(F)(F)F', 'CS(C)(=O)=O', 'OCCN', 'C=CC#N', 'ClCCl', 'CNC', '[NH4+].[OH-]']
+    for t in apit:
+        for name in ('neighbors', 'heteroatoms', 'implicit_hydrogens', 'hybridization'):
+            for value in ((0, 1, 2, 3, 4, [0], [0, 1], [1, 2], [2, 3, 4]) if name != 'hybridization' else (1, 2, 3, [1, 2], [2, 3])):
+                for kind, zs in (('elem', [6]), ('elem', [8]), ('any', []), ('list', [7, 8]), ('list', [6, 9, 17])):
+                    for setter in (None, name):
+                        if rnd.random() < (.12 if ck.quick else .6):
+                            spec = {'kind': kind, 'zs': zs, 'kw': {name: value}}
+                            if setter:
+                                spec['setter'] = setter
+                            ac.append({'key': f'api|{t}|{kind}{zs}|{name}={value}|{"set" if setter else "init"}', 't': t, 'atoms': [spec]})
+        for o in (1, 2):
+            ac.append({'key': f'api2|{t}|D0-{o}', 't': t, 'order': o, 'atoms': [{'kind': 'any', 'zs': [], 'kw': {'heteroatoms': 0}}, {'kind': 'list', 'zs': [6, 7, 8], 'kw': {'implicit_hydrogens': 0}}]})
+    ac = ck.select('api-queries', ac)
+    if ac:
+        res = vlib.pmap('checks.c08', 'api_case', ac)
+        for r in res:
+            if '_observer_error' in r:
+                raise vlib.Machinery(r['_observer_error'] + r['_tb'])
+        keep = [(c, r) for c, r in zip(ac, res) if 'skip' not in r]
+        ck.validate('api-queries', 'Trace_C07', [c for c, _ in keep], [r for _, r in keep])
     ck.assumptions += ['the documented subset is the grammar of spec/lang/Smarts.tla; giving the same primitive twice is outside it (unspecified)',
                        'query stereo marks are parsed (compared) but their matching is covered by C16 / C12']
     return ck.finish(rule='one case = one bracket body / bond token / (query, target) pair; distinct by text',
